@@ -282,6 +282,8 @@ class Ref:
                 assert len(b) == w, (iname, port, len(b), w)
                 for i in range(w):
                     self.uf.union((ipath, port, i), b[i])
+            elif isinstance(e, NC):
+                continue  # a no-connected bundle port: every member ends on a private net
             else:
                 mem = self.members(mod, path, e, x)
                 for lp, w in x.leaves():
